@@ -1,6 +1,6 @@
 //! Resampler configurations (serialisable), constructors for all seven types x {f32,f64},
 //! probing interpolators, and the common proptest strategies for configurations.
-use crate::dynres::{DynRes, SampleX};
+use crate::dynres::{Direct, DynRes, SampleX};
 use proptest::prelude::*;
 use rubato::sinc_interpolator::sinc_interpolator_avx::AvxInterpolator;
 use rubato::sinc_interpolator::sinc_interpolator_sse::SseInterpolator;
@@ -335,27 +335,41 @@ fn make_kernel<T: SampleX>(c: &Config) -> Result<(Box<dyn SincInterpolator<T>>, 
 pub fn build<T: SampleX>(c: &Config) -> Result<Built<T>, String> {
     let e = |e: rubato::ResamplerConstructionError| e.to_string();
     Ok(match c.kind {
-        Kind::FastIn => Built { res: Box::new(FastFixedIn::<T>::new(c.ratio, c.max_rel, degree_of(c.degree), c.chunk, c.channels).map_err(e)?), probe: None },
-        Kind::FastOut => Built { res: Box::new(FastFixedOut::<T>::new(c.ratio, c.max_rel, degree_of(c.degree), c.chunk, c.channels).map_err(e)?), probe: None },
+        Kind::FastIn => Built { res: Box::new(Direct(FastFixedIn::<T>::new(c.ratio, c.max_rel, degree_of(c.degree), c.chunk, c.channels).map_err(e)?)), probe: None },
+        Kind::FastOut => Built { res: Box::new(Direct(FastFixedOut::<T>::new(c.ratio, c.max_rel, degree_of(c.degree), c.chunk, c.channels).map_err(e)?)), probe: None },
         Kind::SincIn => {
             if c.kernel == Kernel::Dispatch {
-                Built { res: Box::new(SincFixedIn::<T>::new(c.ratio, c.max_rel, c.sinc_params(), c.chunk, c.channels).map_err(e)?), probe: None }
+                Built { res: Box::new(Direct(SincFixedIn::<T>::new(c.ratio, c.max_rel, c.sinc_params(), c.chunk, c.channels).map_err(e)?)), probe: None }
             } else {
                 let (k, probe) = make_kernel::<T>(c)?;
-                Built { res: Box::new(SincFixedIn::<T>::new_with_interpolator(c.ratio, c.max_rel, interp_of(c.interp), k, c.chunk, c.channels).map_err(e)?), probe }
+                Built { res: Box::new(Direct(SincFixedIn::<T>::new_with_interpolator(c.ratio, c.max_rel, interp_of(c.interp), k, c.chunk, c.channels).map_err(e)?)), probe }
             }
         }
         Kind::SincOut => {
             if c.kernel == Kernel::Dispatch {
-                Built { res: Box::new(SincFixedOut::<T>::new(c.ratio, c.max_rel, c.sinc_params(), c.chunk, c.channels).map_err(e)?), probe: None }
+                Built { res: Box::new(Direct(SincFixedOut::<T>::new(c.ratio, c.max_rel, c.sinc_params(), c.chunk, c.channels).map_err(e)?)), probe: None }
             } else {
                 let (k, probe) = make_kernel::<T>(c)?;
-                Built { res: Box::new(SincFixedOut::<T>::new_with_interpolator(c.ratio, c.max_rel, interp_of(c.interp), k, c.chunk, c.channels).map_err(e)?), probe }
+                Built { res: Box::new(Direct(SincFixedOut::<T>::new_with_interpolator(c.ratio, c.max_rel, interp_of(c.interp), k, c.chunk, c.channels).map_err(e)?)), probe }
             }
         }
-        Kind::FftIn => Built { res: Box::new(FftFixedIn::<T>::new(c.rate_in, c.rate_out, c.chunk, c.sub_chunks, c.channels).map_err(e)?), probe: None },
-        Kind::FftOut => Built { res: Box::new(FftFixedOut::<T>::new(c.rate_in, c.rate_out, c.chunk, c.sub_chunks, c.channels).map_err(e)?), probe: None },
-        Kind::FftInOut => Built { res: Box::new(FftFixedInOut::<T>::new(c.rate_in, c.rate_out, c.chunk, c.channels).map_err(e)?), probe: None },
+        Kind::FftIn => Built { res: Box::new(Direct(FftFixedIn::<T>::new(c.rate_in, c.rate_out, c.chunk, c.sub_chunks, c.channels).map_err(e)?)), probe: None },
+        Kind::FftOut => Built { res: Box::new(Direct(FftFixedOut::<T>::new(c.rate_in, c.rate_out, c.chunk, c.sub_chunks, c.channels).map_err(e)?)), probe: None },
+        Kind::FftInOut => Built { res: Box::new(Direct(FftFixedInOut::<T>::new(c.rate_in, c.rate_out, c.chunk, c.channels).map_err(e)?)), probe: None },
+    })
+}
+
+/// The same resamplers reached through the object-safe wrapper trait (dispatch kernels only).
+pub fn build_vec<T: SampleX>(c: &Config) -> Result<Box<dyn rubato::VecResampler<T>>, String> {
+    let e = |e: rubato::ResamplerConstructionError| e.to_string();
+    Ok(match c.kind {
+        Kind::FastIn => Box::new(FastFixedIn::<T>::new(c.ratio, c.max_rel, degree_of(c.degree), c.chunk, c.channels).map_err(e)?),
+        Kind::FastOut => Box::new(FastFixedOut::<T>::new(c.ratio, c.max_rel, degree_of(c.degree), c.chunk, c.channels).map_err(e)?),
+        Kind::SincIn => Box::new(SincFixedIn::<T>::new(c.ratio, c.max_rel, c.sinc_params(), c.chunk, c.channels).map_err(e)?),
+        Kind::SincOut => Box::new(SincFixedOut::<T>::new(c.ratio, c.max_rel, c.sinc_params(), c.chunk, c.channels).map_err(e)?),
+        Kind::FftIn => Box::new(FftFixedIn::<T>::new(c.rate_in, c.rate_out, c.chunk, c.sub_chunks, c.channels).map_err(e)?),
+        Kind::FftOut => Box::new(FftFixedOut::<T>::new(c.rate_in, c.rate_out, c.chunk, c.sub_chunks, c.channels).map_err(e)?),
+        Kind::FftInOut => Box::new(FftFixedInOut::<T>::new(c.rate_in, c.rate_out, c.chunk, c.channels).map_err(e)?),
     })
 }
 
